@@ -150,3 +150,47 @@ def hex2_safety_specs(c):
     return {fn_hex2(c): dict(buffers=[('value', 'length')], ensures=[], assigns=[]),
             fn_hex3(c): dict(requires=['__CPROVER_r_ok(value, ((__CPROVER_size_t)end_offset) * sizeof(*value))', '__CPROVER_w_ok(offset, sizeof(*offset))'],
                              ensures=['*offset >= __CPROVER_old(*offset)'], assigns=['*offset'])}
+
+
+# ---- Digit::stringToNumber / parseExponent (memory safety, termination, cursor) --------------------------
+FN_S2N = 'Digit_stringToNumber__char'
+FN_PEXP = 'Digit_parseExponent__char'
+FN_PNEG = 'Digit_powerOfNegativeTen__unsigned_long_long'
+FN_PPOS = 'Digit_powerOfPositiveTen__unsigned_long_long'
+FN_HEX64 = 'Digit_HexStringToNumber__unsigned_long_long_char_unsigned_int__const_char_p_unsigned_int_r_const_unsigned_int'
+
+
+def pexp_spec():
+    return dict(buffers=[('content', 'end_offset')], refs=['exponent', 'is_negative_exp', 'offset'],
+                requires=['*offset <= end_offset'],
+                ensures=['*offset <= end_offset', '*offset >= __CPROVER_old(*offset)', '__CPROVER_return_value == 0 || __CPROVER_return_value == 1'],
+                assigns=['*exponent', '*is_negative_exp', '*offset'],
+                loops={0: dict(invariant=['*offset <= end_offset', '*offset >= __CPROVER_loop_entry(*offset)'], decreases='end_offset - *offset',
+                               assigns='*offset, sign_set, *is_negative_exp, *exponent'),
+                       1: dict(invariant=['*offset <= end_offset', '*offset >= o_offset'], decreases='end_offset - *offset', assigns='*offset, *exponent')})
+
+
+def pexp_callee():
+    return dict(requires=['__CPROVER_r_ok(content, end_offset)', '*offset <= end_offset'],
+                ensures=['*offset <= end_offset', '*offset >= __CPROVER_old(*offset)', '__CPROVER_return_value == 0 || __CPROVER_return_value == 1'],
+                assigns=['*exponent', '*is_negative_exp', '*offset'])
+
+
+def s2n_specs():
+    W = '*offset, digit, number->Natural, dot_offset, is_real, has_dot'
+    main = dict(buffers=[('content', 'end_offset')], refs=['number', 'offset'],
+                ensures=['__CPROVER_old(*offset) <= end_offset ==> *offset <= end_offset', '*offset >= __CPROVER_old(*offset)', '__CPROVER_return_value <= 3'],
+                assigns=['*offset', '__CPROVER_object_whole(number)'],
+                loops={0: dict(invariant=['*offset <= end_offset', '*offset >= start_offset'], decreases='end_offset - *offset', assigns='*offset, digit'),
+                       1: dict(invariant=['*offset <= end_offset', 'max_end_offset <= end_offset', '*offset >= __CPROVER_loop_entry(*offset)',
+                                          '(*offset < end_offset) ==> (*offset < max_end_offset)'],
+                               decreases='end_offset - *offset', assigns=W),
+                       2: dict(invariant=['*offset <= max_end_offset', '*offset >= __CPROVER_loop_entry(*offset)',
+                                          '(*offset > __CPROVER_loop_entry(*offset)) ==> (digit >= 48 && digit <= 57)'], decreases='max_end_offset - *offset',
+                               assigns='*offset, digit, number->Natural'),
+                       3: dict(invariant=['*offset <= end_offset', '*offset >= __CPROVER_loop_entry(*offset)', 'keep_going ==> *offset < end_offset', 'keep_going == 0 || keep_going == 1'],
+                               decreases='((unsigned long long)(end_offset - *offset)) + (keep_going ? 1 : 0)',
+                               assigns='*offset, digit, keep_going, dot_offset, has_dot, exp_offset, exponent, is_negative_exp')})
+    cutp = dict(requires=['__CPROVER_w_ok(number, sizeof(*number))'], assigns=['*number'], ensures=[])
+    hex64 = dict(requires=['__CPROVER_r_ok(value, end_offset)', '*offset <= end_offset'], ensures=['*offset <= end_offset', '*offset >= __CPROVER_old(*offset)'], assigns=['*offset'])
+    return {FN_S2N: main, FN_PEXP: pexp_callee(), FN_PNEG: cutp, FN_PPOS: cutp, FN_HEX64: hex64}
